@@ -38,19 +38,21 @@ RULE = ('Hypothesis draws a database of 2-7 content-free lexicons (ids a/ab/a-b/
         '1/1.0/1.0+x/2-rc/10/2020, languages en/en-GB/es) built by a history: one resource per '
         'lexicon added in a drawn order, optionally wn.remove(id:version) followed by a re-add '
         '(immediately or after the remaining adds), optionally a final removal; the installed '
-        'list is verified against the model before any query. Sub "select": 10-15 (specifier, '
-        'lang) queries per database from the Appendix-D grammar (*, id, id:ver, id:*, *:ver, globs '
+        'list is verified against the model before any query. Sub "select": up to 10 (quick) / 15 (thorough) '
+        '(specifier, lang) queries per database (count drawn, mostly the maximum) from the Appendix-D grammar (*, id, id:ver, id:*, *:ver, globs '
         'with * and ? in either part, colon-less globs, lists of 2-3 tokens, lexicon omitted; '
         'lang in {None, a used language, a pool language, an unused one}); '
         'wn.lexicons() and wn.Wordnet().lexicons() compared as sets of id:version with the '
         'reference resolver (nothing matched -> [] / wn.Error), and a list compared with the '
-        'union of what wn returns for its tokens. Sub "remove": 3-5 specifiers per database, each '
+        'union of what wn returns for its tokens. Sub "remove": up to 3 / 5 specifiers per database, each '
         'applied with wn.remove to a copy of the database; the removed set must equal the '
         'resolver\'s set and the set wn.lexicons() selected for the same specifier. Non-trivial: '
         'some query of the case selects a non-empty proper subset and the database has an id with '
         '>= 2 versions or a prefix pair of ids; distinct by (database history, queries).')
 ASSUMPTIONS = [
     'ids, versions and languages contain no glob metacharacter (* ? [) and no whitespace or colon',
+    'ids that differ only in letter case (a / A) are different ids ("id:version exactly that '
+    'lexicon"); matching is case-sensitive (Appendix D)',
     'databases are never empty when queried (the statement is silent on "*" over an empty database)',
     'an installed lexicon is never added again (whether a skipped add counts as "most recently '
     'added" is not documented); recency = order of successful adds, removal forgets it',
